@@ -416,7 +416,8 @@ pub fn build(prop: &str, draws: &[u16], tier: Tier) -> Case {
             6 => ("locks+probes", gen::sync_prog(&mut s, &SyncParams { mutex: true, rwlock: true, probes: true, ordered_locks: true, max_threads: 3, max_ops: 8 + extra, joins: true, ..sp() })),
             _ => ("handover", gen::lock_handover(&mut s)),
         },
-        "C08" => match s.pick(14) {
+        "C08" => match s.pick(15) {
+            14 => ("double-signal", gen::double_signal(&mut s)),
             13 => ("wake-crossover", gen::wake_crossover(&mut s)),
             11 => ("multi-wait", gen::multi_wait(&mut s)),
             12 => ("mixed-wakeups", gen::sync_prog(&mut s, &SyncParams { channel: true, try_recv: true, condvar: true, park: true, notify: true, max_threads: 2, max_ops: 7 + extra, joins: true, ..sp() })),
